@@ -911,6 +911,10 @@ class Interp:
         for mf in [self.mir] + self.mir.others:
             hits = [(pos, h, ty) for pos, h, ty in getattr(mf, "consts", []) if h.endswith("::" + name)]
             simple = [(h, ty, val, pos) for h, ty, val, pos in getattr(mf, "simple_consts", []) if h.endswith("::" + name) or h == name]
+            if len(simple) > 1 and all("<impl at" in h for h, _, _, _ in simple):
+                keep = [x for x in simple if impl_line_mentions(x[0], tyname)]
+                if keep:
+                    simple = keep
             if len(simple) > 1 and len({(ty, val) for _, ty, val, _ in simple}) > 1:
                 # module-level constants are printed without their path: take the definition nearest to the function being executed
                 here = mf.text.find(self._cur_fn_header) if getattr(self, "_cur_fn_header", None) else -1
